@@ -23,23 +23,23 @@ fn tier_of(s: &str) -> Tier {
 }
 
 macro_rules! registry {
-    ($($id:literal => $m:ident),* $(,)?) => {
+    ($($(#[$a:meta])* $id:literal => $m:ident),* $(,)?) => {
         fn info_of(id: &str) -> Option<runner::PropInfo> {
-            match id { $($id => Some(props::$m::info()),)* _ => None }
+            match id { $($(#[$a])* $id => Some(props::$m::info()),)* _ => None }
         }
         fn worker_dispatch(ctx: &WorkerCtx) -> WorkerResult {
             match ctx.prop.as_str() {
-                $($id => run_worker(ctx, props::$m::plan(ctx.tier)),)*
+                $($(#[$a])* $id => run_worker(ctx, props::$m::plan(ctx.tier)),)*
                 _ => { eprintln!("unknown property"); std::process::exit(2) }
             }
         }
         fn replay_dispatch(id: &str, case: &Value) -> Result<sdjwt_model::stats::Verdict, String> {
             match id {
-                $($id => runner::replay_case::<props::$m::Case>(case, props::$m::plan(Tier::Quick).check),)*
+                $($(#[$a])* $id => runner::replay_case::<props::$m::Case>(case, props::$m::plan(Tier::Quick).check),)*
                 _ => Err("unknown property".into()),
             }
         }
-        fn all_ids() -> Vec<&'static str> { vec![$($id),*] }
+        fn all_ids() -> Vec<&'static str> { vec![$($(#[$a])* $id),*] }
     };
 }
 
@@ -59,6 +59,8 @@ registry! {
     "C13" => c13,
     "C14" => c14,
     "C15" => c15,
+    #[cfg(feature = "mock")]
+    "C16" => c16,
 }
 
 fn seed_from_env() -> u64 {
